@@ -857,6 +857,15 @@ class Interp:
                         truth = entry[1] != 0
                         is_eq = (v.op == "==") == truth
                         entry = (v.args[0], v.args[1] if is_eq else ("not", [v.args[1]]), entry[2])
+                    # normalise ne(a, b) to eq(a, b) with the opposite truth value (boolean switch: arms == [0])
+                    if isinstance(entry[0], Term) and entry[0].op == "ne" and len(entry[0].args) == 2 and [int(a[0]) for a in arms] == [0]:
+                        tv = entry[1] != 0
+                        entry = (Term("eq", *entry[0].args), 0 if tv else ("not", [0]), entry[2])
+                    # canonical argument order: the constant side of an equality on the right
+                    if isinstance(entry[0], Term) and entry[0].op == "eq" and len(entry[0].args) == 2:
+                        x, y = entry[0].args
+                        if isinstance(x, Poly) and x.const_value() is not None and not (isinstance(y, Poly) and y.const_value() is not None):
+                            entry = (Term("eq", y, x), entry[1], entry[2])
                     self.path.append(entry)
                     bi = nxt
                     continue
@@ -985,6 +994,8 @@ class Interp:
                 return x
             if isinstance(x, Term):
                 return Term("as_" + ty, x)
+            if isinstance(x, Opaque) and getattr(x, "sym_at", None) is not None and getattr(x, "field", None) is not None:
+                return Term("as_" + ty, Term(x.name))      # an unknown value of an orchestrating skeleton (execmodel.Havoc)
             raise Unanalysable("cast of %r" % (x,))
         if ck in ("PointerCoercion",):
             if isinstance(x, Ptr):
